@@ -469,18 +469,21 @@ def val(k, v):
 
 def render_staging(prog):
     out = ["(import hyv_hit)"]
-    for i, (kind, (where, runs)) in enumerate(prog, 1):
-        s1, s2 = 10 * i + 1, 10 * i + 2
+    for i, (kind, (where, runs), inner) in enumerate(prog, 1):
+        s1, s2, s3, s4 = 10 * i + 1, 10 * i + 2, 10 * i + 3, 10 * i + 4
+        n = {"none": "", "ewc": f" (eval-when-compile (import hyv_hit) (hyv_hit.hit {s3}))",
+             "eac": f" (eval-and-compile (import hyv_hit) (hyv_hit.hit {s3}))",
+             "domac": f" (do-mac (import hyv_hit) (hyv_hit.hit {s3}) '(hyv_hit.hit {s4}))"}[inner]
         if kind == "ewc":
-            form = f"(eval-when-compile (import hyv_hit) (hyv_hit.hit {s1}))"
+            form = f"(eval-when-compile (import hyv_hit) (hyv_hit.hit {s1}){n})"
         elif kind == "eac":
-            form = f"(hyv_hit.val {i} (eval-and-compile (import hyv_hit) (hyv_hit.hit {s1}) (+ 40 {i})))"
+            form = f"(hyv_hit.val {i} (eval-and-compile (import hyv_hit) (hyv_hit.hit {s1}){n} (+ 40 {i})))"
         elif kind == "eac0":
-            form = f"(hyv_hit.val {i} (eval-and-compile (import hyv_hit) (hyv_hit.hit {s1}) 0))"
+            form = f"(hyv_hit.val {i} (eval-and-compile (import hyv_hit) (hyv_hit.hit {s1}){n} 0))"
         elif kind == "domac0":
-            form = f"(hyv_hit.val {i} (do-mac (import hyv_hit) (hyv_hit.hit {s1}) 0))"
+            form = f"(hyv_hit.val {i} (do-mac (import hyv_hit) (hyv_hit.hit {s1}){n} 0))"
         else:
-            form = f"(hyv_hit.val {i} (do-mac (import hyv_hit) (hyv_hit.hit {s1}) '(do (hyv_hit.hit {s2}) (+ 50 {i}))))"
+            form = f"(hyv_hit.val {i} (do-mac (import hyv_hit) (hyv_hit.hit {s1}){n} '(do (hyv_hit.hit {s2}) (+ 50 {i}))))"
         if where == "top":
             out.append(form)
         else:
@@ -497,15 +500,20 @@ def main_c16(run):
     q = run.quick
     mf = 2 if q else 3
     r = tlc.run("HyStaging", tlc.cfg(constants={"MaxForms": mf},
-                                     invariants=["CachedIsRunTimePart", "EwcNeverAtRunTime", "BodiesOncePerCompilation", "Export"]),
+                                     invariants=["CachedIsRunTimePart", "EwcNeverAtRunTime", "BodiesOncePerCompilation",
+                                                 "InnerFollowsOuter", "Export"]),
                 run.work, workers=8, label="staging")
     if r.violated:
         raise MachineryError(f"HyStaging: {r.violated} violated on the specification")
     run.add_tlc(r, f"HyStaging: every module of <= {mf} staging forms x placement x call count")
     progs = r.ex("PROG")
     run.log(f"TLC: {len(progs)} programs")
-    if len(progs) > (240 if q else 3500):
-        progs = rng.sample(progs, 240 if q else 3500)
+    progs.sort(key=lambda x: json.dumps(x["prog"]))
+    single = [x for x in progs if len(x["prog"]) == 1]
+    rest = [x for x in progs if len(x["prog"]) > 1]
+    if len(rest) > (200 if q else 3500):
+        rest = rng.sample(rest, 200 if q else 3500)
+    progs = single + rest
     d = run.work / "staging"
     d.mkdir()
     (d / "hyv_hit.py").write_text(HIT_PY)
@@ -551,10 +559,11 @@ def main_c16(run):
                     if got != cnt:
                         ok = False
                         kind = rec["prog"][i - 1][0]
-                        run.violation(f"{hist}:{key}", f"{hist}: {'body' if sidx == 1 else 'generated code'} of form {i} ({kind}) "
+                        what = {1: "body", 2: "generated code", 3: "body of the inner form", 4: "code generated by the inner form"}[sidx]
+                        run.violation(f"{hist}:{key}", f"{hist}: {what} of form {i} ({kind}, inner {rec['prog'][i - 1][2]}) "
                                       f"ran {got} times, expected {cnt}; module:\n{text}", {"prog": rec, "text": text})
             # values: eval-and-compile returns its last value, do-mac's result is compiled and evaluated
-            for i, (kind, (where, runs)) in enumerate(rec["prog"], 1):
+            for i, (kind, (where, runs), _inner) in enumerate(rec["prog"], 1):
                 if kind != "ewc" and hist != "compile":
                     vals = [l for l in o["lines"] if l.startswith(f"v{i}=")]
                     wantv = [f"v{i}={rec['values'][i - 1]}"] * runs
@@ -573,7 +582,7 @@ def main_c16(run):
     run.sample({"module": render_staging(results[0][0]["prog"]), "expected": {k: results[0][0][k] for k in ("compile", "source", "bytecode")}})
     return run.finish("model_checking",
                       "every module of <= %d staging forms (eval-when-compile, eval-and-compile, do-mac) each at top level or "
-                      "in a function called 0-2 times; HyStaging gives per effect site the number of firings for three "
+                      "in a function called 0-2 times, each optionally holding another staging form in its body; HyStaging gives per effect site the number of firings for three "
                       "histories (compile only, import from source, import again from cached bytecode); each history is a "
                       "separate interpreter process, firings counted from a log file, returned values checked" % mf,
                       extra={"exhaustive": len(progs) == len(r.ex("PROG"))})
